@@ -1736,11 +1736,14 @@ def GET_EYE(
         # and crossing amplitude
         cond = (input > v25) & (input < v75)
 
-        ty = np.vstack([t[cond], input[cond]]).T
+        # amplitudes are normalised to the estimated levels (0 -> level 0, 1 -> level 1) so that the clustering
+        # of the (t, y) points does not depend on the unit or offset of the signal
+        ty = np.vstack([t[cond], (input[cond] - state_0) / d01]).T
 
         # We get centroids of 2 clusters for t,y
         kmeans.fit(ty)
-        ty_c = kmeans.cluster_centers_
+        ty_c = kmeans.cluster_centers_.copy()
+        ty_c[:,1] = ty_c[:,1] * d01 + state_0  # back to the unit of the signal
 
         left = np.argmin(ty_c[:,0])
         right = np.argmax(ty_c[:,0])
